@@ -28,7 +28,7 @@ machine epsilon"):
   `(T+ΔT)x̂ = b`, `|ΔT| ≤ γ_{max n 2}|T|`), their `_depth` refinements, `_residual` corollaries, the
   scalar-generic recurrences `forwardSubstitution_rows` / `backwardSubstitution_rows`, and
   `choleskySolve_backward_error`
-* `f64_instance_note`, `f64_sum8_note`: `γ_n ≤ 1.12·10⁻¹²` for `n ≤ 10⁴` at `u = 2⁻⁵³`
+* `f64_instance_note` (pure numerics), `stdmodel_sum8_note`: `γ_n ≤ 1.12·10⁻¹²` for `n ≤ 10⁴` at `u = 2⁻⁵³`
 Non-vacuity: `namespace Examples` at the end (two concrete models in which rounding errors occur).
 -/
 namespace Cv.Rounding
@@ -1170,13 +1170,17 @@ theorem f64_instance_note (M : FlModel) (hu : M.u = 1 / 2 ^ 53) (n : Nat) (hn : 
   rw [hu]
   norm_num
 
-/-- … hence `|sum8 x − Σxᵢ| ≤ 1.12·10⁻¹²·Σ|xᵢ|` for every `f64` vector of length `≤ 10⁴`, barring
-overflow/underflow (the trusted link). -/
-theorem f64_sum8_note (M : FlModel) (hu : M.u = 1 / 2 ^ 53) (x : List (Fl M)) (hn : x.length ≤ 10000) :
+/-- … hence `|sum8 x − Σxᵢ| ≤ 1.12·10⁻¹²·Σ|xᵢ|` for every vector of length `≤ 10⁴` in a standard model with
+`u = 2⁻⁵³`.  PROVISO: a theorem of the idealised standard model (`fl(x) = x(1+δ)` for EVERY operation, library functions of relative error `≤ uf` for EVERY argument), instantiated at `u = 2⁻⁵³`; it is a statement about IEEE binary64 only where no operation overflows or underflows (for `exp`: arguments in `[−708.39, 709.78]`). -/
+theorem stdmodel_sum8_note (M : FlModel) (hu : M.u = 1 / 2 ^ 53) (x : List (Fl M)) (hn : x.length ≤ 10000) :
     |(sum8 x).val - (vals x).sum| ≤ 1.12e-12 * ((vals x).map (|·|)).sum := by
   obtain ⟨hlt, hγ⟩ := f64_instance_note M hu x.length hn
   refine le_trans (sum8_error x hlt) (mul_le_mul_of_nonneg_right hγ ?_)
   exact List.sum_nonneg (by intro a ha; obtain ⟨b, _, rfl⟩ := List.mem_map.mp ha; exact abs_nonneg b)
+
+/-- deprecated alias of `stdmodel_sum8_note` (the `f64_` prefix wrongly suggested a statement about IEEE binary64; kept only
+until the `REQUIRED_THEOREMS` wiring is updated) -/
+alias f64_sum8_note := stdmodel_sum8_note
 
 
 /-! ### Non-vacuity: concrete models and concrete inputs -/
